@@ -7,8 +7,9 @@
    lowered program started in a store agreeing on the other flags with do_return = False (what the
    function-level frame emitted by the pass establishes) produces the same trace and decisions; it
    completes normally exactly when the original completes normally or returns, and do_return is True
-   at the end exactly when the original returned.  try/else/finally and with under the exception-free
-   semantics; loops without else clause (the pipeline rejects loop-else), finally clauses without jumps.
+   at the end exactly when the original returned; a run that ends in an exception ends in the same
+   exception at the same point with do_return False.  raise, try/except/else/finally (handlers included,
+   dispatch by decision) and with are covered; loops without else clause (the pipeline rejects loop-else), finally clauses without jumps.
    Models = Passes.crr_block, Passes.ret_block, tied to return_statements.py by structural comparison. *)
 From Coq Require Import List Arith Bool.
 Import ListNotations.
@@ -38,6 +39,21 @@ Example ex_r_run : exec_block 40 ex_r (fun _ => false) [1; 1] = ([1; 2; 3; 6], O
 Proof. vm_compute; reflexivity. Qed.
 Example ex_r_lowered_run :
   let '(tr, o, s, d) := exec_block 60 (fst (return_pass ex_r)) (fun _ => false) [1; 1] in (tr, o, s rflag, d) = ([1; 2; 3; 6], ONormal, true, []).
+Proof. vm_compute; reflexivity. Qed.
+(* non-vacuity with exceptions: try: raise r1  except: (if t2: return r3); a4   ;  a5 *)
+Definition ex_x : block :=
+  BCons (STry (BCons (SRaise 1) BNil) (HCons (BCons (SIf (CUser 2) (BCons (SReturn 3) BNil) BNil) (BCons (SAtom 4) BNil)) HNil) BNil BNil)
+        (BCons (SAtom 5) BNil).
+Example ex_x_clean : rclean_block (fst (crr_block ex_x)) = true.
+Proof. vm_compute; reflexivity. Qed.
+Example ex_x_run : exec_block 40 ex_x (fun _ => false) [0; 1] = ([1; 2; 3], ORet, (fun _ => false), []).
+Proof. vm_compute; reflexivity. Qed.
+Example ex_x_lowered_run :
+  let '(tr, o, s, d) := exec_block 60 (fst (return_pass ex_x)) (fun _ => false) [0; 1] in (tr, o, s rflag, d) = ([1; 2; 3], ONormal, true, []).
+Proof. vm_compute; reflexivity. Qed.
+(* ... and an exception no handler takes (decision 1 = past the only handler) leaves the lowered function too *)
+Example ex_x_uncaught :
+  let '(tr, o, s, d) := exec_block 60 (fst (return_pass ex_x)) (fun _ => false) [1] in (tr, o, s rflag, d) = ([1], ORaise, false, []).
 Proof. vm_compute; reflexivity. Qed.
 Print Assumptions return_lowering_correct.
 Print Assumptions conditional_return_rewriter_correct.
